@@ -85,9 +85,9 @@ def harnesses(tier, seed):
             for term in ("count", "reduce_xor", "find", "any"):
                 if term == "reduce_xor" and ty == "F":
                     continue
-                for (n, t, c) in ((4, 2, 1), (4, 2, 2), (4, 3, 1)):
+                for (n, t, c) in (((4, 2, 1), (4, 2, 2), (4, 3, 1)) if ty not in ("FL", "FLF") else ((3, 2, 1), (3, 2, 2))):
                     heavy.append(scalar(term, ty, n, t, c))
-                heavy.append(scalar(term, ty, 4, 2, 1, src="sched"))
+                heavy.append(scalar(term, ty, 4 if ty not in ("FL", "FLF") else 3, 2, 1, src="sched"))
             bucket = heavy if ty in ("FL", "FLF") else light
             for (n, t, c) in ((3, 2, 1), (3, 2, 2), (2, 2, 2)):
                 for owners in owner_tables(n, t, c):
